@@ -731,9 +731,41 @@ func (t *c17amtTally) flush(c *vf.Ctx) {
 
 const c17amtBatch = 4
 
+// c17exoticUnits are legal AmountUnit values far outside -12..12 (and ones
+// that alias in-range units when squeezed into 8 bits).  Their results are not
+// checked (outside the quantifier); they are issued so that state a call may
+// leave behind (caches, pooled buffers) is present when the in-range calls run.
+var c17exoticUnits = []int{244, 268, -268, 256, -256, 100, -100, 127, -128, 128, 300, -300, 1000, -1000, 32767, -32768}
+
+// c17exoticFirst runs once in a fresh child process before any case: every
+// exotic unit is used before any in-range unit has been.
+func c17exoticFirst(t vf.Tier, seed uint64) any {
+	defer func() { recover() }()
+	for _, u := range c17exoticUnits {
+		for _, a := range []bchutil.Amount{0, 1, -1, 123, 2100000000000000, -2100000000000000} {
+			_ = a.Format(bchutil.AmountUnit(u))
+			_ = a.ToUnit(bchutil.AmountUnit(u))
+		}
+		_ = bchutil.AmountUnit(u).String()
+	}
+	return nil
+}
+
 func c17amountsCase(c *vf.Ctx, i int) {
 	tab := c17amountTab()
 	var t c17amtTally
+	if i%5 == 4 {
+		a := bchutil.Amount(c17randAmount(c.R))
+		for k := 0; k < 3; k++ {
+			u := bchutil.AmountUnit(c17exoticUnits[c.R.Intn(len(c17exoticUnits))])
+			c.Call("Amount.Format(exotic unit)", func() string { return fmt.Sprintf("Amount(%d).Format(%d)", a, u) }, func() {
+				_ = a.Format(u)
+				_ = a.ToUnit(u)
+				_ = u.String()
+			})
+		}
+		c.Inc("amounts/cases_preceded_by_calls_with_exotic_units")
+	}
 	if i < len(tab) {
 		c17amount(c, &t, tab[i], c17allUnits)
 		if i == 0 { // the label table itself, every exponent
@@ -926,6 +958,8 @@ func init() {
 			{Name: "newamount-directed", N: func(vf.Tier) int { return len(c17directedF()) + len(c17nonFinite) }, Run: c17directedCase},
 			{Name: "newamount-random", N: func(t vf.Tier) int { return t.Sz(125_000, 12_500_000) }, Run: c17randomCase},
 			{Name: "amounts", N: func(t vf.Tier) int { return len(c17amountTab()) + t.Sz(500_000, 10_000_000) }, Run: c17amountsCase},
+			// the same checks in a fresh process whose FIRST library calls use exotic units
+			{Name: "amounts-after-exotic-units-first", Init: c17exoticFirst, N: func(t vf.Tier) int { return len(c17amountTab()) + t.Sz(20_000, 400_000) }, Run: c17amountsCase},
 			{Name: "mulf64", N: func(t vf.Tier) int { return t.Sz(125_000, 12_500_000) }, Run: c17mulCase},
 		},
 	})
